@@ -241,6 +241,9 @@ def unify(kind_a, kind_b):
         raise ValueError("arithmetic with flags is not permitted")
 
     if isinstance(kind_a, UserType):
+        if isinstance(kind_b, Integer):
+            return kind_a
+
         assert isinstance(kind_b, (UserType, Scalar))
 
         if isinstance(kind_b, UserType):
@@ -252,6 +255,9 @@ def unify(kind_a, kind_b):
         return kind_a
 
     if isinstance(kind_a, Array):
+        if isinstance(kind_b, Integer):
+            return kind_a
+
         assert isinstance(kind_b, (Array, Scalar))
 
         return Array(
